@@ -1336,6 +1336,15 @@ def register(eng):
 
     @model("slice::join", "Join::join")
     def _(eng, a, c):
+        v = deref(a[0]); sep = deref(a[1]) if len(a) > 1 else None
+        items = [deref(x) for x in v.items] if isinstance(v, (VecM, SliceV)) else None
+        if items is not None and all(isinstance(x, StrM) for x in items) and isinstance(sep, StrM):
+            out = []
+            for i, x in enumerate(items):
+                if i:
+                    out += list(sep.bytes)
+                out += list(x.bytes)
+            return StrM(out, True)
         return Opaque("string", [a[0]])
 
     @model("Vec::remove")
@@ -1344,6 +1353,20 @@ def register(eng):
         if is_sym(a[1]) or a[1] >= len(v.items):
             raise Panic("index-oob", "removal index out of bounds", c)
         return v.items.pop(a[1])
+
+    @model("Vec::swap_remove")
+    def _(eng, a, c):
+        # removes element i and puts the last element in its place; panics when i >= len
+        v = deref(a[0])
+        if is_sym(a[1]):
+            raise Unmodelled("swap_remove with a symbolic index")
+        if a[1] >= len(v.items):
+            raise Panic("index-oob", "swap_remove index (is %d) should be < len (is %d)" % (a[1], len(v.items)), c)
+        x = v.items[a[1]]
+        last = v.items.pop()
+        if a[1] < len(v.items):
+            v.items[a[1]] = last
+        return x
 
     @model("Vec::retain")
     def _(eng, a, c):
